@@ -14,13 +14,66 @@ pub fn def() -> PropDef {
     }
 }
 
+/// one (text, configuration) evaluation; `judge_words` = the text is well-formed, so the
+/// statement's preconditions can be evaluated with the reference separators
+fn check_idempotent(text: &str, cfg: &Cfg, cx: &mut Cx) {
+    cx.eval();
+    let o = cfg.opts();
+    let d = || format!("{} text={:?}", cfg.d(), text);
+    let les = cfg.ending();
+    let w = cfg.width;
+    let (f1, f2) = match cx.guard(|| {
+        let f1 = fill(text, &o);
+        let f2 = fill(&f1, &o);
+        (f1, f2)
+    }) {
+        Some(x) => x,
+        None => return,
+    };
+    cx.outcome(&f1);
+    // preconditions
+    let mut pre = true;
+    if cfg.is_uni() && cfg.bw {
+        for par in text.split(les) {
+            let vis = match ref_visible(par) {
+                Some(v) => v,
+                None => {
+                    pre = false;
+                    continue;
+                }
+            };
+            let fb = ref_frag_bounds(par, &vis, cfg);
+            let mut all = vec![0];
+            all.extend(fb.iter().map(|&(_, hi)| hi));
+            all.push(par.len());
+            if (0..all.len() - 1).any(|k| ref_visible(par[all[k]..all[k + 1]].trim_end_matches(' ')).map(|v| v.width() > w).unwrap_or(true)) {
+                pre = false;
+            }
+        }
+    }
+    if !cfg.is_ff() && f1.split(les).any(|l| ref_visible(l).map(|v| v.width() > w).unwrap_or(true)) {
+        pre = false;
+    }
+    if !pre {
+        cx.note("C14-precondition-not-met(skipped)");
+        return;
+    }
+    if f1.split(les).count() > text.split(les).count() {
+        cx.nontrivial();
+        if cx.want_sample() {
+            cx.sample(&|| json!({"text": text, "config": cfg.d(), "fill": f1}));
+        }
+    }
+    cx.check("C14-idempotent", f1 == f2, &d, &|| json!({"fill": f1, "fill(fill)": f2}));
+}
+
 fn run(r: &mut Run) -> Result<(), MachineryError> {
     let t = r.tier;
     let alpha = [L, SP, HY, W, NL, CM, TAB, NB, ZW, OP, CL, CSI, CR];
     let n = t.pick(4, 5);
     let g = Gamma { seps: seps(), algs: algs_default(), spls: vec![Spl::None, Spl::Hyphen], bws: vec![true, false], indents: vec![("", "")], crlf: vec![false, true] };
     let bases = g.bases();
-    let space = Space { name: "C14/texts".into(), menu: menu(&alpha), max_len: n, desc: format!("texts of length <= {}; {}; widths 0..=display width+2, MAX", n, g.describe()) };
+    let space = Space { name: "C14/texts".into(), menu: menu(&alpha), max_len: n, desc: format!("texts of length <= {}; {}; widths 0..=display width+2, MAX; CRLF configurations on the CRLF form and on the bare-LF form of each text with a line break", n, g.describe()) };
     r.space(space, |seq, cx| {
         let text_lf = build(seq, &alpha);
         cx.set_input(&text_lf);
@@ -30,56 +83,33 @@ fn run(r: &mut Run) -> Result<(), MachineryError> {
             if base.crlf && !(text_lf.contains('\n') || text_lf.contains('\r')) {
                 continue;
             }
-            let text: &str = if base.crlf { &text_crlf } else { &text_lf };
-            let les = base.ending();
             for w in (0..=hi).chain([usize::MAX]) {
-                cx.eval();
                 let cfg = Cfg { width: w, ..*base };
-                let o = cfg.opts();
-                let d = || cfg.d();
-                let (f1, f2) = match cx.guard(|| {
-                    let f1 = fill(text, &o);
-                    let f2 = fill(&f1, &o);
-                    (f1, f2)
-                }) {
-                    Some(x) => x,
-                    None => continue,
-                };
-                cx.outcome(&f1);
-                // preconditions
-                let mut pre = true;
-                if cfg.is_uni() && cfg.bw {
-                    for par in text.split(les) {
-                        let vis = match ref_visible(par) {
-                            Some(v) => v,
-                            None => {
-                                pre = false;
-                                continue;
-                            }
-                        };
-                        let fb = ref_frag_bounds(par, &vis, &cfg);
-                        let mut all = vec![0];
-                        all.extend(fb.iter().map(|&(_, hi)| hi));
-                        all.push(par.len());
-                        if (0..all.len() - 1).any(|k| ref_visible(par[all[k]..all[k + 1]].trim_end_matches(' ')).map(|v| v.width() > w).unwrap_or(true)) {
-                            pre = false;
-                        }
+                if base.crlf {
+                    check_idempotent(&text_crlf, &cfg, cx);
+                    if text_lf.contains('\n') {
+                        check_idempotent(&text_lf, &cfg, cx);
                     }
+                } else {
+                    check_idempotent(&text_lf, &cfg, cx);
                 }
-                if !cfg.is_ff() && f1.split(les).any(|l| ref_visible(l).map(|v| v.width() > w).unwrap_or(true)) {
-                    pre = false;
-                }
-                if !pre {
-                    cx.note("C14-precondition-not-met(skipped)");
-                    continue;
-                }
-                if f1.split(les).count() > text.split(les).count() {
-                    cx.nontrivial();
-                    if cx.want_sample() {
-                        cx.sample(&|| json!({"text": text, "config": cfg.d(), "fill": f1}));
-                    }
-                }
-                cx.check("C14-idempotent", f1 == f2, &d, &|| json!({"fill": f1, "fill(fill)": f2}));
+            }
+        }
+    })?;
+    // texts with stray ESC characters (not well-formed): the statement's "for all texts" with the
+    // ASCII separator and first-fit needs no precondition, so these can be judged too
+    let raw = [L, LLL, SP, ESC, LBR, LM];
+    let n = t.pick(5, 7);
+    let g2 = Gamma { seps: vec![Sep::Ascii], algs: vec![Alg::FirstFit], spls: vec![Spl::None, Spl::Hyphen], bws: vec![true, false], indents: vec![("", "")], crlf: vec![false] };
+    let bases2 = g2.bases();
+    let space = Space { name: "C14/texts-with-stray-escapes".into(), menu: menu(&raw), max_len: n, desc: format!("texts of length <= {} over raw escape pieces; {}; widths 0..=character count+2, MAX", n, g2.describe()) };
+    r.space(space, |seq, cx| {
+        let text = build(seq, &raw);
+        cx.set_input(&text);
+        let hi = text.chars().count() + 2;
+        for base in &bases2 {
+            for w in (0..=hi).chain([usize::MAX]) {
+                check_idempotent(&text, &Cfg { width: w, ..*base }, cx);
             }
         }
     })
